@@ -548,7 +548,7 @@ def enc5(ctx, c):
             except NotConst as e:
                 c.undecided("SpecialOperand.translate:%s" % m, "prelude-not-foldable", str(e), repo.loc(fn, pp))
                 continue
-            universe = sorted(set(regs) | {"S", "U", "X", "Y", "A", "B", "D", "CC", "DP", "PC", "Z", "W", ""})
+            universe = sorted(set(regs) | {"S", "U", "X", "Y", "A", "B", "D", "CC", "DP", "PC", "Z", "W", "", "x", "a", "d", "pc", "u", "s", " X", "X "})
             for r in universe:
                 env[rv] = r
                 try:
@@ -589,8 +589,8 @@ def enc5(ctx, c):
     rejects = [st for st in te.body if isinstance(st, ast.If) and st.body and isinstance(st.body[-1], ast.Raise) and st is not legal_if]
     rvar = "registers"
     ref_legal = mc6809.tfr_legal_postbytes()
-    for a in sorted(set(regs) | set(mc6809.TFR_CODES)):
-        for b in sorted(set(regs) | set(mc6809.TFR_CODES)):
+    for a in sorted(set(regs) | set(mc6809.TFR_CODES) | {"x", "a", "Z"}):
+        for b in sorted(set(regs) | set(mc6809.TFR_CODES) | {"x", "a", "Z"}):
             env = dict(ctx.env)
             env[rvar] = [a, b]
             env["self.instruction.mnemonic"] = "TFR"
